@@ -7,9 +7,10 @@ from cq import CQBase
 
 class C13Bridge(BridgeBase):
     pid = "C13"
+    quick_cap = 14000
     prefixes = ("C13.",)
     mc = [("SkywayBridge_mc", "SkywayBridge_sigs", ("quick", "thorough"))]
-    gens = [Gen("SkywayBridgeGen", "SkywayBridgeGen_sigs_cover", "bfs", tiers=("quick",), timeout=900, cap=2500),
+    gens = [Gen("SkywayBridgeGen", "SkywayBridgeGen_sigs_cover", "bfs", tiers=("quick",), timeout=900, cap=12000),
             Gen("SkywayBridgeGen", "SkywayBridgeGen_sigs_sim", "simulate", num=300, depth=14, tiers=("quick",), cap=1500),
             Gen("SkywayBridgeGen", "SkywayBridgeGen_sigs_cover", "bfs", tiers=("thorough",), timeout=900, cap=20000),
             Gen("SkywayBridgeGen", "SkywayBridgeGen_sigs_sim", "simulate", num=3000, depth=14, tiers=("thorough",), cap=15000)]
@@ -20,9 +21,10 @@ class C13Bridge(BridgeBase):
 
 class C13Queue(CQBase):
     pid = "C13"
+    quick_cap = 8000
     prefixes = ("C13.",)
     mc = [("ConsensusQueue_mc", "ConsensusQueue_ev", ("quick", "thorough"))]
-    gens = [Gen("ConsensusQueueGen", "ConsensusQueueGen_prune_cover", "bfs", tiers=("quick",), timeout=900, cap=1500),
+    gens = [Gen("ConsensusQueueGen", "ConsensusQueueGen_prune_cover", "bfs", tiers=("quick",), timeout=900, cap=6000),
             Gen("ConsensusQueueGen", "ConsensusQueueGen_sim", "simulate", num=100, depth=18, tiers=("quick",), cap=500),
             Gen("ConsensusQueueGen", "ConsensusQueueGen_prune_cover", "bfs", tiers=("thorough",), timeout=900, cap=20000),
             Gen("ConsensusQueueGen", "ConsensusQueueGen_sim", "simulate", num=1000, depth=18, tiers=("thorough",), cap=6000)]
